@@ -246,6 +246,12 @@ func (o Op) String() string {
 		return fmt.Sprintf("BindMemoized(n%d){%s}", o.A, casesStr(o.Cases))
 	case "NewBind2":
 		return fmt.Sprintf("Bind2(n%d,n%d){%s}", o.A, o.B, casesStr(o.Cases))
+	case "NewSentinel":
+		return fmt.Sprintf("Sentinel(n%d)", o.A)
+	case "FireSentinel":
+		return fmt.Sprintf("s%d.fires-next-pass", o.A)
+	case "Unwatch":
+		return fmt.Sprintf("s%d.Unwatch()", o.A)
 	case "PurgeMemo":
 		return fmt.Sprintf("n%d.Cache().Purge(%d)", o.A, o.V)
 	case "ClearMemo":
